@@ -151,6 +151,15 @@ func main() {
 				panic(err)
 			}
 
+			// runtime-monitoring hooks (build tag "verif") and their no-op counterparts
+			entries = []bavard.Entry{
+				{File: filepath.Join(csDir, "verif_hook.go"), Templates: []string{"verif_hook.go.tmpl", importCurve}, BuildTag: "verif"},
+				{File: filepath.Join(csDir, "verif_nohook.go"), Templates: []string{"verif_nohook.go.tmpl", importCurve}, BuildTag: "!verif"},
+			}
+			if err := bgen.Generate(d, "cs", "./template/representations/", entries...); err != nil {
+				panic(err)
+			}
+
 			// gkr backend
 			if !d.NoGKR {
 				// solver and proof delegator TODO merge with "backend" below
